@@ -15,6 +15,14 @@ impl Projector {
         .project_node(iter)
     }
 
+    /// links to notes are stored as library keys; write them relative to the note's directory
+    fn relative(&self, inlines: Vec<GraphInline>) -> Vec<GraphInline> {
+        inlines
+            .iter()
+            .map(|inline| inline.relative_to(&self.parent))
+            .collect()
+    }
+
     fn with(&self, header_level: usize) -> Projector {
         Projector {
             header_level,
@@ -38,7 +46,7 @@ impl Projector {
             Node::Section(_) => {
                 blocks.push(GraphBlock::Header(
                     self.header_level as u8 + 1,
-                    iter.inlines(),
+                    self.relative(iter.inlines()),
                 ));
 
                 if let Some(child) = iter.child() {
@@ -65,7 +73,7 @@ impl Projector {
                 }
             }
             Node::Leaf(_) => {
-                blocks.push(GraphBlock::Para(iter.inlines()));
+                blocks.push(GraphBlock::Para(self.relative(iter.inlines())));
             }
             Node::Raw(_, _) => {
                 blocks.push(GraphBlock::CodeBlock(
@@ -99,13 +107,13 @@ impl Projector {
                     iter.table_header()
                         .unwrap_or_default()
                         .iter()
-                        .cloned()
+                        .map(|cell| self.relative(cell.clone()))
                         .collect(),
                     iter.table_alignment().unwrap_or_default(),
                     iter.table_rows()
                         .unwrap_or_default()
                         .iter()
-                        .map(|row| row.iter().cloned().collect())
+                        .map(|row| row.iter().map(|cell| self.relative(cell.clone())).collect())
                         .collect(),
                 ));
             }
@@ -124,9 +132,9 @@ impl Projector {
         }
 
         if iter.child().map(|n| n.is_leaf()).unwrap_or(false) {
-            items.push(vec![GraphBlock::Para(iter.inlines())]);
+            items.push(vec![GraphBlock::Para(self.relative(iter.inlines()))]);
         } else {
-            items.push(vec![GraphBlock::Plain(iter.inlines())]);
+            items.push(vec![GraphBlock::Plain(self.relative(iter.inlines()))]);
         }
 
         iter.child()
